@@ -1580,6 +1580,11 @@ func (pc *PartitionContext) removeAllocation(release *si.AllocationRelease) ([]*
 				zap.String("allocationKey", alloc.GetAllocationKey()),
 				zap.String("allocation nodeID", confirmed.GetNodeID()))
 		} else if node.RemoveAllocation(alloc.GetAllocationKey()) != nil {
+			// a placeholder that goes away for another reason while its replacement is in flight: the replacement
+			// will never be confirmed, reverse it so that the real ask is scheduled again
+			if release.TerminationType != si.TerminationType_PLACEHOLDER_REPLACED && alloc.IsPlaceholder() && alloc.HasRelease() {
+				pc.reverseInFlightReplacement(app, alloc)
+			}
 			// all non replacement are real removes: must update the queue usage
 			total.AddTo(alloc.GetAllocatedResource())
 			log.Log(log.SchedPartition).Info("removing allocation from node",
@@ -1626,6 +1631,29 @@ func (pc *PartitionContext) removeAllocation(release *si.AllocationRelease) ([]*
 	}
 
 	return released, confirmed
+}
+
+// reverseInFlightReplacement undoes the replacement of a placeholder that is removed before the shim confirmed the
+// replacement: the real allocation is taken off the node it was placed on (only if that is a different node, on the
+// same node it is not registered yet), the link is broken and the real ask returns to pending.
+func (pc *PartitionContext) reverseInFlightReplacement(app *objects.Application, placeholder *objects.Allocation) {
+	realAlloc := placeholder.GetRelease()
+	if realAlloc == nil {
+		return
+	}
+	if realAlloc.GetNodeID() != placeholder.GetNodeID() {
+		if otherNode := pc.GetNode(realAlloc.GetNodeID()); otherNode != nil {
+			otherNode.RemoveAllocation(realAlloc.GetAllocationKey())
+		}
+	}
+	realAlloc.ClearRelease()
+	placeholder.ClearRelease()
+	if _, err := app.DeallocateAsk(realAlloc.GetAllocationKey()); err != nil {
+		log.Log(log.SchedPartition).Warn("failed to reverse an inflight placeholder replacement",
+			zap.String("appID", app.ApplicationID),
+			zap.String("allocationKey", realAlloc.GetAllocationKey()),
+			zap.Error(err))
+	}
 }
 
 // updatePhAllocationCount checks the released allocations and updates the partition context counter of allocated
